@@ -50,7 +50,7 @@ def to_json(feature_model: FeatureModel) -> Dict[str, Any]:
 def get_tree_info(feature: Feature) -> Dict[str, Any]:
     feature_info: Dict[str, Any] = {}
     feature_info['name'] = feature.name
-    feature_info['abstract'] = str(feature.is_abstract)
+    feature_info['abstract'] = bool(feature.is_abstract)
 
     relations: List[Dict[str, Any]] = []
     for relation in feature.get_relations():
